@@ -29,8 +29,10 @@ abbrev Heap := Nat → Obj
 
 def Heap.set (h : Heap) (o : Nat) (x : Obj) : Heap := fun p => if p = o then x else h p
 
-/-- `del ind.fitness.values` -/
-def delFit (h : Heap) (o : Nat) : Heap := h.set o { h o with fit := none }
+/-- `del ind.fitness.values`
+(`@[inline]`: compiled code builds the new object once, at the deletion — a heap-valued function is otherwise
+compiled with the looked-up oid as an extra argument and would redo `h o` at every later lookup.) -/
+@[inline] def delFit (h : Heap) (o : Nat) : Heap := h.set o { h o with fit := none }
 
 inductive Ev where
   | clone (src new : Nat)
